@@ -99,7 +99,7 @@ pub fn h_recursive_indirect<M: VMode>() {
         let handle = rec.clone();
         drop(rec);
         let r = handle.gov::<M>(inp);
-        vassert!(lg(inp, 0).rdepth == 1 && recurse_depth() == 0, "C12/recursive_declared.definition-is-entered-through-the-stack-growth-guard");
+        vassert2!(lg(inp, 0).rdepth == 1 && recurse_depth() == 0, "C12/recursive_declared.definition-is-entered-through-the-stack-growth-guard", "C20/recursive_declared.definition-is-entered-through-the-stack-growth-guard");
         forward_asserts!("C12/", "recursive_declared", inp, s0, r);
     });
 }
@@ -123,7 +123,7 @@ pub fn h_recursive_mutual<M: VMode>() {
         drop(b);
         let r = a.gov::<M>(inp);
         // a -> b -> definition: every hop of a declared parser (all handles here are owning ones) is guarded
-        vassert!(lg(inp, 0).rdepth == 2 && recurse_depth() == 0, "C12/recursive_mutual.every-hop-is-entered-through-the-stack-growth-guard");
+        vassert2!(lg(inp, 0).rdepth == 2 && recurse_depth() == 0, "C12/recursive_mutual.every-hop-is-entered-through-the-stack-growth-guard", "C20/recursive_mutual.every-hop-is-entered-through-the-stack-growth-guard");
         forward_asserts!("C12/", "recursive_mutual", inp, s0, r);
     });
 }
@@ -137,7 +137,7 @@ pub fn h_recursive_direct<M: VMode>() {
         let handle = rec.clone();
         drop(rec);
         let r = handle.gov::<M>(inp);
-        vassert!(lg(inp, 0).rdepth == 1 && recurse_depth() == 0, "C12/recursive.definition-is-entered-through-the-stack-growth-guard");
+        vassert2!(lg(inp, 0).rdepth == 1 && recurse_depth() == 0, "C12/recursive.definition-is-entered-through-the-stack-growth-guard", "C20/recursive.definition-is-entered-through-the-stack-growth-guard");
         forward_asserts!("C12/", "recursive", inp, s0, r);
     });
 }
@@ -153,13 +153,13 @@ pub fn h_recursive_unroll<M: VMode>() {
         let s = snap(inp);
         let (a0, a1) = (lg(inp, 0), lg(inp, 1));
         vassert!(a0.called && a0.entry_pos == s0.pos, "C12/recursive.definition-runs-from-entry");
-        vassert!(a0.rdepth == 1, "C12/recursive.definition-is-entered-through-the-stack-growth-guard");
+        vassert2!(a0.rdepth == 1, "C12/recursive.definition-is-entered-through-the-stack-growth-guard", "C20/recursive.definition-is-entered-through-the-stack-growth-guard");
         vassert!(r.is_ok() == a0.ok, "C12/recursive.accepts-as-the-unrolled-grammar");
         if a0.ok {
             vcover!(true, "recursive: one level");
             // the unrolling a.then((a.then(..)).or_not()): second level tried right after the first `a`, fails (bound), consumes nothing
             vassert!(a1.called && a1.entry_pos == a0.exit_pos && !a1.ok, "C12/recursive.self-reference-re-enters-the-definition-at-the-current-position");
-            vassert!(a1.rdepth == 2, "C12/recursive.each-level-of-self-reference-grows-the-stack-guard-nesting");
+            vassert2!(a1.rdepth == 2, "C12/recursive.each-level-of-self-reference-grows-the-stack-guard-nesting", "C20/recursive.each-level-of-self-reference-grows-the-stack-guard-nesting");
             vassert!(s.pos == a0.exit_pos && s.believed == s.pos, "C12/recursive.consumes-as-the-unrolled-grammar");
             vassert!(ok_with::<M, _>(&r, a0.out.wrapping_mul(31).wrapping_add(7)), "C12/recursive.output-of-the-unrolled-grammar");
             vassert!(SecSpec::pre(&s0).child(0, &a0).holds(&s, false), "C05/recursive.abandoned-recursive-attempt-leaves-no-emissions");
